@@ -15,14 +15,25 @@ import (
 // with a library frame on its stack is a call that blocks without consuming input: the run is declared a
 // violation (a blocked goroutine cannot be interrupted, so the process exits). CPU-bound work of the check
 // itself never matches: the runtime only annotates waiting goroutines with a duration.
-var blockedHeader = regexp.MustCompile(`^goroutine \d+ \[(semacquire|sync\.Mutex\.Lock|sync\.RWMutex\.R?Lock|chan receive|chan send|select|sync\.Cond\.Wait|sync\.WaitGroup\.Wait)[^\]]*, (\d+) minutes\]`)
+//
+// Two conditions keep a stall of the process itself from being taken for a blocked call (seen once on an
+// oversubscribed machine: for minutes no goroutine could allocate - all of them, this watchdog included,
+// queued on the runtime's semaphore for the start of a collection - then the run went on; the first dump
+// after that still showed the old waiting time of a goroutine that had not been rescheduled yet):
+// the goroutine must still be blocked in the next dump 20 s later (a deadlocked call stays blocked for
+// ever), and a wait in state "semacquire" counts only when the semaphore was reached through package
+// sync (WaitGroup, Once, ...): a library frame directly under the runtime's semaphore is an allocation
+// waiting for the collector, not a wait the library asked for.
+var blockedHeader = regexp.MustCompile(`^goroutine (\d+) \[(semacquire|sync\.Mutex\.Lock|sync\.RWMutex\.R?Lock|chan receive|chan send|select|sync\.Cond\.Wait|sync\.WaitGroup\.Wait)[^\]]*, (\d+) minutes\]`)
 
 func StartBlockWatch(c *Ctx, libraryPrefix string) {
 	go func() {
 		buf := make([]byte, 8<<20)
+		seenBefore := map[string]bool{}
 		for {
 			time.Sleep(20 * time.Second)
 			n := runtime.Stack(buf, true)
+			seenNow := map[string]bool{}
 			for _, g := range strings.Split(string(buf[:n]), "\n\n") {
 				m := blockedHeader.FindStringSubmatch(g)
 				if m == nil || !strings.Contains(g, libraryPrefix) {
@@ -32,10 +43,15 @@ func StartBlockWatch(c *Ctx, libraryPrefix string) {
 				// below the top is a library frame
 				lines := strings.Split(g, "\n")
 				inLib := false
+				first := true
 				for _, l := range lines[1:] {
 					if strings.HasPrefix(l, "\t") {
 						continue
 					}
+					if first && m[2] == "semacquire" && !strings.HasPrefix(l, "sync.") && !strings.HasPrefix(l, "internal/") {
+						break // the runtime's own semaphore under an allocation
+					}
+					first = false
 					if strings.HasPrefix(l, "runtime.") || strings.HasPrefix(l, "sync.") || strings.HasPrefix(l, "internal/") {
 						continue
 					}
@@ -45,11 +61,16 @@ func StartBlockWatch(c *Ctx, libraryPrefix string) {
 				if !inLib {
 					continue
 				}
-				p := writeReplay(c.ID, "blocked", map[string]any{"property": c.ID, "signature": "blocked-inside-library", "detail": map[string]any{"kind": "stack", "message": "a library call has been waiting for " + m[2] + " minutes (" + m[1] + ") although every reader and writer of the check is in memory", "stack": g}})
-				fmt.Printf("VIOLATION property=%s replay=%s\n  signature=blocked-inside-library (%s for %s minutes)\n", c.ID, p, m[1], m[2])
+				seenNow[m[1]] = true
+				if !seenBefore[m[1]] {
+					continue // reported when it is still blocked in the next dump
+				}
+				p := writeReplay(c.ID, "blocked", map[string]any{"property": c.ID, "signature": "blocked-inside-library", "detail": map[string]any{"kind": "stack", "message": "a library call has been waiting for " + m[3] + " minutes (" + m[2] + ") although every reader and writer of the check is in memory", "stack": g}})
+				fmt.Printf("VIOLATION property=%s replay=%s\n  signature=blocked-inside-library (%s for %s minutes)\n", c.ID, p, m[2], m[3])
 				c.Ev.Write(c, c.Rep.Violations()+1, nil)
 				os.Exit(1)
 			}
+			seenBefore = seenNow
 		}
 	}()
 }
